@@ -1,5 +1,5 @@
 #!/usr/bin/env python3
-"""tools_store_seed.py <prop> <A..F> <needs> <detected_by> : copies /tmp/seed_out/<prop>/<X> to /verif/seeded/<prop>-<X> with meta.json"""
+"""tools_store_seed.py <prop> <A..H> <needs> <detected_by> : copies /tmp/seed_out/<prop>/<X> to /verif/seeded/<prop>-<X> with meta.json"""
 import json, os, shutil, subprocess, sys
 prop, x, needs, det = sys.argv[1:5]
 src = "/tmp/seed_out/%s/%s" % (prop, x); dst = "/verif/seeded/%s-%s" % (prop, x)
